@@ -155,7 +155,7 @@ impl Prop for C17 {
         for _ in 0..(if th { 12 } else { 3 }) { v.push(case(&[("kind", "field-order".into()), ("seed", rng.next().to_string())])); }
         for l in 0..=60usize { for var in 0..(if th { 6 } else { 2 }) { v.push(case(&[("kind", "pklen".into()), ("len", l.to_string()), ("var", var.to_string()), ("seed", rng.next().to_string())])); } }
         for (i, _) in NAMES.iter().enumerate() { v.push(case(&[("kind", "name".into()), ("ni", i.to_string())])); }
-        for extra in ["x128", "x129", "e64", "e65", "tabend", "nl", "crlf", "sp", "eq", "u2028"] { v.push(case(&[("kind", "name".into()), ("ni", extra.into())])); }
+        for extra in ["x128", "x129", "e64", "e65", "tabend", "nl", "crlf", "sp", "eq", "u2028", "bom-mid", "bom-only", "bom-first", "zwsp", "zwj", "shy", "nbsp-mid"] { v.push(case(&[("kind", "name".into()), ("ni", extra.into())])); }
         for _ in 0..(if th { 300 } else { 40 }) { v.push(case(&[("kind", "name".into()), ("ni", "rand".into()), ("seed", rng.next().to_string())])); }
         for pos in 0..48usize { for alt in 0..(if th { 6 } else { 2 }) { v.push(case(&[("kind", "pkcorrupt".into()), ("pos", pos.to_string()), ("alt", alt.to_string()), ("seed", rng.next().to_string())])); } }
         for _ in 0..(if th { 2000 } else { 200 }) { v.push(case(&[("kind", "pkrt".into()), ("seed", rng.next().to_string())])); }
@@ -298,7 +298,9 @@ impl Prop for C17 {
                 let ni = get(c, "ni");
                 let name: String = match ni { "x128" => "x".repeat(128), "x129" => "x".repeat(129), "e64" => "é".repeat(64), "e65" => "é".repeat(65), "tabend" => "ab\t".into(), "nl" => "a\nb".into(),
                     "crlf" => "a\r\nb".into(), "sp" => " a ".into(), "eq" => "a = b = c".into(), "u2028" => "a\u{2028}b".into(),
-                    "rand" => { let mut rng = Rng::new(get(c, "seed").parse().unwrap_or(0)); let n = rng.range(1, 12); (0..n).map(|_| *rng.pick(&['a', 'B', ' ', '\t', 'é', '=', '#', '[', ']', '\u{a0}', '\r', '7', '\u{1F511}'])).collect() }
+                    // characters that render as nothing: a name is its characters, none of them may get lost on the way through the file
+                    "bom-mid" => "ali\u{feff}ce".into(), "bom-only" => "\u{feff}".into(), "bom-first" => "\u{feff}alice".into(), "zwsp" => "ali\u{200b}ce".into(), "zwj" => "a\u{200d}b".into(), "shy" => "co\u{ad}op".into(), "nbsp-mid" => "a\u{a0}b".into(),
+                    "rand" => { let mut rng = Rng::new(get(c, "seed").parse().unwrap_or(0)); let n = rng.range(1, 12); (0..n).map(|_| *rng.pick(&['a', 'B', ' ', '\t', 'é', '=', '#', '[', ']', '\u{a0}', '\r', '7', '\u{1F511}', '\u{feff}', '\u{200b}'])).collect() }
                     i => NAMES[i.parse::<usize>().unwrap_or(0)].to_string() };
                 // what `key generate` does: read_line + trim, then valid_key_name
                 let name = name.trim().to_string();
